@@ -18,16 +18,18 @@ static int build(int cfg)
 {
     nc_defaults();
     NC.sync = 1; NC.sync_id = 0x80;
-    NC.n_rpdo = 3;
+    /* --opt base=1: the three channels are RPDO numbers 1..3 (1401h.., RPDO #0 absent) instead of 0..2 */
+    int B = mc_opt("base", 0) ? 1 : 0;
+    NC.n_rpdo = B + 3;
     for (int ch = 0; ch < 3; ch++) {
         int k = (cfg >> (2 * ch)) & 3;
-        NC.rpdo[ch].present = (k != K_ABSENT);
-        NC.rpdo[ch].cobid = RID[ch] | (k == K_INVALID ? 0x80000000u : 0);
-        NC.rpdo[ch].type = (uint8_t)(k == K_SYNC ? 1 : 255);
+        NC.rpdo[B + ch].present = (k != K_ABSENT);
+        NC.rpdo[B + ch].cobid = RID[ch] | (k == K_INVALID ? 0x80000000u : 0);
+        NC.rpdo[B + ch].type = (uint8_t)(k == K_SYNC ? 1 : 255);
     }
-    NC.rpdo[0].nmap = 3; NC.rpdo[0].map[0] = NC_MAP(0x2110, 0, 8); NC.rpdo[0].map[1] = NC_MAP(0x0005, 0, 8); NC.rpdo[0].map[2] = NC_MAP(0x2111, 0, 16);
-    NC.rpdo[1].nmap = 2; NC.rpdo[1].map[0] = NC_MAP(0x2113, 1, 8); NC.rpdo[1].map[1] = NC_MAP(0x2113, 2, 8);
-    NC.rpdo[2].nmap = 1; NC.rpdo[2].map[0] = NC_MAP(0x2112, 0, 32);
+    NC.rpdo[B + 0].nmap = 3; NC.rpdo[B + 0].map[0] = NC_MAP(0x2110, 0, 8); NC.rpdo[B + 0].map[1] = NC_MAP(0x0005, 0, 8); NC.rpdo[B + 0].map[2] = NC_MAP(0x2111, 0, 16);
+    NC.rpdo[B + 1].nmap = 2; NC.rpdo[B + 1].map[0] = NC_MAP(0x2113, 1, 8); NC.rpdo[B + 1].map[1] = NC_MAP(0x2113, 2, 8);
+    NC.rpdo[B + 2].nmap = 1; NC.rpdo[B + 2].map[0] = NC_MAP(0x2112, 0, 32);
     NC.operational = (cfg >= 64);
     nc_build();
     (void)CONodeGetErr(&Node);
